@@ -134,6 +134,26 @@ class Extractor:
         t = e.get("t", "")
         return cls in t
 
+    def rebind_key(self, key, depth=0):
+        """key with a local that merely stands for a member place (a reference parameter of an inlined helper, a const
+        alias) replaced by that place"""
+        if key is None or depth > 6:
+            return key
+        if key[0] == "local":
+            d = self.locals.get(key[1])
+            if d and d[0] == "expr" and self.const_local.get(key[1]):
+                i0 = C.strip_casts(d[1])
+                if i0 is not None and (i0.get("k") in ("Mem", "Idx", "Ref") or (i0.get("k") == "Call" and i0.get("op") == "[]")):
+                    k2 = self.rebind_key(lv_key(d[1]), depth + 1)
+                    if key_root_member(k2):
+                        return k2
+            return key
+        if key[0] == "elem":
+            return ("elem", self.rebind_key(key[1], depth + 1))
+        if key[0] in ("f", "call"):
+            return (key[0], self.rebind_key(key[1], depth + 1)) + tuple(key[2:])
+        return key
+
     def resolve_written(self, a, depth=0):
         """Key of a written value, looking through const locals (and const local arrays) that only carry a member."""
         key = lv_key(a)
@@ -165,7 +185,7 @@ class Extractor:
                     k2 = self.resolve_written(init["a"][idx], depth + 1)
                     if key_root_member(k2):
                         return k2
-        return key
+        return self.rebind_key(key)
 
     def write_event(self, x):
         if C.is_call(x, name="write", cls="RestartWriter") and len(x["a"]) == 1:
@@ -486,9 +506,9 @@ class Extractor:
             return
         dest = None
         if e.get("k") == "Bin" and e["op"] == "=":
-            dest = lv_key(e["a"])
+            dest = self.rebind_key(lv_key(e["a"]))
         elif e.get("k") == "Call" and e.get("op") == "=" and e.get("obj") is not None:
-            dest = lv_key(e["obj"])
+            dest = self.rebind_key(lv_key(e["obj"]))
         evs = self.events_in(e, dest=dest)
         for it in evs:
             self.emit(items, it)
